@@ -123,7 +123,9 @@ class Kernel:
             json.dump({'Replace': repl}, f, indent=1)
         with open(os.path.join(outdir, 'model.json'), 'w') as f:
             json.dump({'harness': harness, 'model': model}, f, indent=1)
-        cmd = ['go', 'test', '-tags', 'verif', '-vet=off', '-count=1', '-overlay', os.path.join(outdir, 'overlay.json'), '-run', '^TestVerifReplay$', '-v', './' + self.pkgdir]
+        # a counterexample that consists of a map iteration order cannot be forced natively (Go randomises it): the replay is repeated
+        count = '40' if any(k_.startswith('maporder_') for k_ in model) else '1'
+        cmd = ['go', 'test', '-tags', 'verif', '-vet=off', '-count=' + count, '-overlay', os.path.join(outdir, 'overlay.json'), '-run', '^TestVerifReplay$', '-v', './' + self.pkgdir]
         with open(os.path.join(outdir, 'README.txt'), 'w') as f:
             f.write('cd %s && VERIF_REPLAY_FILE=%s %s\n' % (core.REPO, os.path.join(outdir, 'model.json'), ' '.join(cmd)))
         env = dict(core.GOENV, VERIF_REPLAY_FILE=os.path.join(outdir, 'model.json'))
